@@ -169,6 +169,20 @@ class World:
     def snap(self):
         return [self.snap_pool(p) for p in self.objs]
 
+    def pool_agg(self):
+        """Pool-level aggregate getters (`WorkerPool.resources`, read after every operation like the simulator's
+        utilisation log does): compared by the oracle with the sum over the pool's workers; not part of the model."""
+        out = []
+        for p in self.objs:
+            r = p.resources
+            out.append({
+                "q_avail": [r.get_available_quantity(k) for k in self.keys],
+                "q_total": [r.get_total_quantity(k) for k in self.keys],
+                "q_alloc": [r.get_allocated_quantity(k) for k in self.keys],
+                "util": sorted(p.get_utilization()) if hasattr(p, "get_utilization") else None,
+            })
+        return out
+
     # -- operations ---------------------------------------------------------
     def apply(self, op):
         """Returns (out, ret)."""
@@ -247,5 +261,5 @@ def run_case(case):
     obs = []
     for op in case["ops"]:
         out, ret = w.apply(op)
-        obs.append({"out": out, "ret": ret, "snap": w.snap()})
+        obs.append({"out": out, "ret": ret, "snap": w.snap(), "pool_agg": w.pool_agg()})
     return obs
